@@ -11,29 +11,138 @@ import (
 
 // ---- C12.A1: an auth scheme answers true only from the Match of its credential store ----------------------------------
 
+// c12SchemeMethods: the interface methods through which route.Target.Authorized asks a scheme for its verdict: the
+// invokes with a single bool result on an interface declared in the repository, in Target.Authorized or a repository
+// function it statically reaches (any package; the lookup of the scheme may live in a type of package auth).
+func c12SchemeMethods(c *Ctx) map[*types.Func]bool {
+	out := map[*types.Func]bool{}
+	root := c.method("route", "Target", "Authorized")
+	if root == nil {
+		return out
+	}
+	seen := map[*ssa.Function]bool{}
+	var visit func(f *ssa.Function, depth int)
+	visit = func(f *ssa.Function, depth int) {
+		if f == nil || seen[f] || depth > 4 {
+			return
+		}
+		seen[f] = true
+		eachInstr(f, func(i ssa.Instruction) {
+			cc := callCommon(i)
+			if cc == nil {
+				return
+			}
+			if cc.IsInvoke() {
+				res := cc.Method.Type().(*types.Signature).Results()
+				if res.Len() == 1 && types.Identical(res.At(0).Type().Underlying(), types.Typ[types.Bool]) && cc.Method.Pkg() != nil && strings.HasPrefix(cc.Method.Pkg().Path(), repoMod) {
+					out[cc.Method] = true
+				}
+				return
+			}
+			if sc := cc.StaticCallee(); sc != nil {
+				if sc = unwrap(sc); isRepoFn(sc) && len(sc.Blocks) > 0 {
+					visit(sc, depth+1)
+				}
+			}
+		})
+		for _, a := range f.AnonFuncs {
+			visit(a, depth)
+		}
+	}
+	visit(root, 0)
+	return out
+}
+
+// c12ImplementsScheme: f is the implementation of one of the scheme interface methods by a concrete repository type.
+func c12ImplementsScheme(f *ssa.Function, methods map[*types.Func]bool) bool {
+	recv := f.Signature.Recv()
+	if recv == nil || f.Parent() != nil {
+		return false
+	}
+	for m := range methods {
+		if m.Name() != f.Name() {
+			continue
+		}
+		msig, ok := m.Type().(*types.Signature)
+		if !ok || msig.Recv() == nil {
+			continue
+		}
+		iface, ok := msig.Recv().Type().Underlying().(*types.Interface)
+		if !ok {
+			continue
+		}
+		if types.Implements(recv.Type(), iface) {
+			return true
+		}
+	}
+	return false
+}
+
 func runC12A1(c *Ctx) {
 	sp := c.spkg("auth")
 	if sp == nil {
 		c.undecided("C12.A1", "anchor|package auth", "not loaded")
 		return
 	}
-	matcher := &c12Eng{leaf: c12CredentialMatch}
-	n := 0
+	// The auth schemes: wherever they live and whatever the method is called, the implementations of the interface
+	// method through which Target.Authorized gets the verdict (failing that: the methods named Authorized of package auth).
+	methods := c12SchemeMethods(c)
+	isScheme := map[*ssa.Function]bool{}
+	var schemes []*ssa.Function
 	for _, f := range c.AllFns {
-		if rootPkg(f) != sp || f.Name() != "Authorized" || f.Signature.Recv() == nil || f.Parent() != nil {
+		if f.Signature.Recv() == nil || f.Parent() != nil || len(f.Blocks) == 0 || !isRepoFn(f) {
 			continue
 		}
+		res := f.Signature.Results()
+		if res.Len() != 1 || !types.Identical(res.At(0).Type().Underlying(), types.Typ[types.Bool]) {
+			continue
+		}
+		// (by name only when the interface does not resolve: a registry method `Schemes.Authorized(name, r, w)` is not
+		// a scheme; what it answers is judged by F1 as part of Target.Authorized)
+		if c12ImplementsScheme(f, methods) || (len(methods) == 0 && rootPkg(f) == sp && f.Name() == "Authorized") {
+			isScheme[f] = true
+			schemes = append(schemes, f)
+		}
+	}
+	matcher := &c12Eng{leaf: c12CredentialMatch}
+	n, nMatch := 0, 0
+	for _, f := range schemes {
+		f := f
+		// the positive verdict of ANOTHER scheme (asked through the interface, or a scheme method called directly): a
+		// registry that looks the scheme up by name, a wrapper, a scheme that combines others. The scheme that is asked
+		// is itself subject to this rule.
+		delegate := &c12Eng{leaf: func(cond ssa.Value, truth bool) (ssa.Value, bool) {
+			call, ok := cond.(*ssa.Call)
+			if !ok || !truth {
+				return nil, false
+			}
+			if call.Call.IsInvoke() {
+				return nil, methods[call.Call.Method] || call.Call.Method.Name() == "Authorized"
+			}
+			sc := call.Call.StaticCallee()
+			if sc == nil {
+				return nil, false
+			}
+			sc = unwrap(sc)
+			return nil, sc != f && isScheme[sc]
+		}}
 		n++
 		for _, vr := range c12VirtualReturns(f, 0) {
 			if !vr.val {
 				continue
 			}
 			_, ok := matcher.holds(vr)
+			if ok {
+				nMatch++
+			} else {
+				_, ok = delegate.holds(vr)
+			}
 			c.check("C12.A1", fnKey(f)+"|credentials accepted only by the matcher", vr.pos, ok,
-				"an auth scheme may answer true only on the edge where the credential store's Match accepted this request's credentials; a verdict from anything else (a cache of earlier headers, a flag) keeps admitting credentials after they were removed or rotated")
+				"an auth scheme may answer true only on the edge where the credential store's Match accepted this request's credentials (or as the positive verdict of another scheme it asks); a verdict from anything else (a cache of earlier headers, a flag) keeps admitting credentials after they were removed or rotated")
 		}
 	}
 	c.atLeast("C12.A1", "auth scheme implementations", n, 1)
+	c.atLeast("C12.A1", "positive verdicts of an auth scheme that are the verdict of a credential matcher", nMatch, 1)
 }
 
 // c12CredentialMatch: the branch condition is the positive verdict of a credential comparison on this request: the
@@ -220,6 +329,13 @@ func runC12X1(c *Ctx) {
 				if len(gSites[fn]) == 0 {
 					for _, a := range c12CombinatorOperands(fn) {
 						walk(a, depth+1)
+					}
+					for k, p := range fn.Params {
+						if p == x {
+							for _, a := range c12YieldArgs(fn, k) {
+								walk(a, depth+1)
+							}
+						}
 					}
 				}
 			case *ssa.FreeVar:
